@@ -92,7 +92,7 @@ class Repo:
             # something happens outside the project directory (tracked file edited, untracked file created): never part of the change set
             with open(os.path.join(self.outer, "elsewhere", "tracked.txt"), "a") as f: f.write("edit %d\n" % self.serial)
             open(os.path.join(self.outer, "elsewhere", "new%d.txt" % self.serial), "w").write("x"); self.serial += 1
-        op = op or rng.choice(["write", "write", "write", "modify", "delete", "mv", "gitmv", "add", "addall", "rmcached", "commit", "commit", "empty", "big", "bigtail", "bigtail",
+        op = op or rng.choice(["write", "write", "write", "modify", "delete", "mv", "gitmv", "add", "addall", "rmcached", "commit", "commit", "empty", "big", "bigtail", "bigtail", "rewrite_same", "rewrite_same",
                                "amend", "reset", "branch"])
         genv = {**os.environ, **vlib.GIT_ENV}
         if op == "amend" and len(self.commits) >= 2:
@@ -146,6 +146,12 @@ class Repo:
             # a zero-length file: its checksum must still differ from the empty checksum that stands for "no such file"
             n = rng.choice(NAMES); os.makedirs(os.path.dirname(os.path.join(r, n)) or r, exist_ok=True)
             open(os.path.join(r, n), "wb").close(); self.ever_empty.add(n); return ("empty", n)
+        if op == "rewrite_same" and existing:
+            # the same bytes written anew (an editor's save without changes, a revert by hand, a copy renamed into place): new inode and
+            # times, so git's cached stat information is stale, but the content is what it was - not a change
+            n = rng.choice(existing); fp = os.path.join(r, n); data = open(fp, "rb").read()
+            open(fp + ".tmp~", "wb").write(data); os.replace(fp + ".tmp~", fp); os.utime(fp, (1700000000 + self.serial, 1700000000 + self.serial)); self.serial += 1
+            return ("rewrite_same", n)
         if op == "write":
             n = rng.choice(NAMES); os.makedirs(os.path.dirname(os.path.join(r, n)) or r, exist_ok=True)
             open(os.path.join(r, n), "wb").write(self.fresh_content(rng)); return ("write", n)
@@ -288,6 +294,20 @@ def unborn_head_update(ctx, repo, rng, trail):
     ctx.record({"trail": list(trail), "what": "checkpoint update without --id while HEAD has no commit"}, True, ok, ok, True,
                sample={"ops": trail[-3:], "rc": rc, "show_before": before, "show_after": after}, detail={"rc": rc, "out": out, "err": err, "show_before": before, "show_after": after})
 
+def odd_id_update(ctx, repo, rng, trail):
+    """--id is stored and returned verbatim, whatever it looks like (a revision read from a CRLF file keeps its carriage return): show
+    returns exactly what the update returned.  An ordinary update follows, so that the history goes on from a usable checkpoint."""
+    sha = rng.choice(repo.commits)
+    odd = rng.choice([sha + "\r", sha + " ", " " + sha, sha + "\n", "\t" + sha[:12]])
+    rc, out, err, raw = vlib.monorail(repo.repo, "checkpoint", "update", "--id", odd)
+    trail.append(["update_with_odd_id", odd])
+    shown = show_checkpoint(repo)
+    ok = (rc == 0 and out is not None and out["checkpoint"]["id"] == odd and shown == out["checkpoint"]) or (rc != 0 and out is None)
+    ctx.count("update_with_odd_id_" + ("accepted" if rc == 0 else "refused"))
+    ctx.record({"trail": list(trail), "what": "an --id with white space around it: show returns what update returned"}, True, ok, ok, True,
+               sample={"id": odd, "rc": rc, "shown": shown}, detail={"id": odd, "rc": rc, "returned": out, "shown": shown})
+    do_update(ctx, repo, rng, trail, "C19")
+
 STRACE = shutil.which("strace")
 def write_error_update(ctx, repo, rng, trail):
     """The file system refuses the data (no space left: every write(2) to the checkpoint file or its temporary fails with ENOSPC, injected
@@ -341,6 +361,7 @@ def scenario(ctx, sseed, focus, force_huge=False):
             if rng.random() < 0.7: trail.append(list(repo.apply(rng, "commit")))
         do_update(ctx, repo, rng, trail, focus, with_id=(rng.choice(repo.commits) if rng.random() < 0.3 else None))
         if focus == "C19" and side.random() < 0.3: unborn_head_update(ctx, repo, side, trail)
+        if focus == "C19" and side.random() < 0.3: odd_id_update(ctx, repo, side, trail)
         if side.random() < 0.15:
             # a file named HEAD in the repository root
             open(os.path.join(repo.repo, "HEAD"), "wb").write(b"not the ref\n"); trail.append(["root_file_named", "HEAD"]); ctx.count("root_file_named_HEAD")
@@ -389,9 +410,10 @@ def scenario(ctx, sseed, focus, force_huge=False):
                     do_update(ctx, repo, rng, trail, focus, with_id=(rng.choice(repo.commits) if rng.random() < 0.3 else None))
                 elif k < 0.55 and focus == "C19":
                     w = side.random()
-                    if w < 0.35: failing_update(ctx, repo, rng, trail)
-                    elif w < 0.7: write_error_update(ctx, repo, side, trail)
-                    else: unborn_head_update(ctx, repo, side, trail)
+                    if w < 0.3: failing_update(ctx, repo, rng, trail)
+                    elif w < 0.55: write_error_update(ctx, repo, side, trail)
+                    elif w < 0.8: unborn_head_update(ctx, repo, side, trail)
+                    else: odd_id_update(ctx, repo, side, trail)
                 elif k < 0.8:
                     had = show_checkpoint(repo) is not None
                     rc, out, err, raw = vlib.monorail(repo.repo, "checkpoint", "delete"); trail.append(["cp_delete"])
